@@ -24,6 +24,7 @@ type ServerConnection struct {
 	negotiatedVersion string
 	manager           cert.TlsConfig
 	supportTls        bool
+	requireTls        bool
 	secure            bool
 	securityTech      string
 }
@@ -132,8 +133,11 @@ func (sc *ServerConnection) handshake(conn *streams.BufferedInputConnection) err
 				log.WithError(err).Warnf("Could not get X509 key pair, will not be able to advertise STARTTLS")
 			} else if c != nil && c.Certificates != nil && len(c.Certificates) > 0 {
 				sc.supportTls = true
+				// A server which demands client certificates must not admit anybody in clear text
+				sc.requireTls = c.ClientAuth >= tls.RequireAnyClientCert
 				capabilities = append(capabilities, CapabilityStartTls)
 			} else {
+				sc.requireTls = c != nil && c.ClientAuth >= tls.RequireAnyClientCert
 				log.Infof("No certificates, will not advrtise StartTLS.")
 			}
 		} else {
@@ -273,6 +277,22 @@ func (sc *ServerConnection) upgrade(conn *streams.BufferedInputConnection) (stre
 			return nil, err
 
 		}
+	}
+
+	if sc.requireTls && !sc.secure {
+		response = &Response{
+			Status:     strconv.Itoa(http.StatusForbidden) + " Forbidden",
+			StatusCode: http.StatusForbidden,
+		}
+
+		err := errors.Errorf("Client certificate required: the client must secure the connection with StartTLS")
+		responseHeaders.Set("Message", err.Error())
+		log.WithError(err).Errorf(err.Error())
+
+		if e := response.Write(conn); e != nil {
+			log.WithError(e).Warnf("Could not write response: %v", e)
+		}
+		return nil, err
 	}
 
 	if e := response.Write(conn); e != nil {
